@@ -9,6 +9,19 @@ def run(ctx):
           H('VerifC15Proposal', 'pkg/store/v2/proposal', {'pkg/store/v2/proposal/zz_verif_c15.go': 'c15/zz_verif_c15_prop.go'}, unwind=8),
           H('VerifC15Configuration', 'pkg/store/v2/configuration', {'pkg/store/v2/configuration/zz_verif_cfgstore.go': 'c03/zz_verif_cfgstore.go', 'pkg/store/v2/configuration/zz_verif_cfgclient.go': 'c03/zz_verif_cfgclient_sym.go|c03/zz_verif_cfgclient_native.go'}, unwind=12,
             opts={'cuts': {c03.BUILDER_GET: 'atomix-map-by-name', c03.PROTO_CODEC: 'noop'}})]
+    txw = {'pkg/store/v2/transaction/zz_verif_c15.go': 'c15/zz_verif_c15_tx.go', 'pkg/store/v2/transaction/zz_verif_c15_watch.go': 'c15/zz_verif_c15_txwatch.go'}
+    for so in (0, 1):          # which ready case a select takes
+        for mo in (0, 1):      # order in which the pump walks its watcher maps
+            hs.append(H('VerifC15TxWatch', 'pkg/store/v2/transaction', txw, unwind=14, replay_attempts=4,
+                        opts={'goroutine_park': True, 'select_order': so, 'maporder': mo}))
+    hs.append(H('VerifC15PropWatch', 'pkg/store/v2/proposal', {'pkg/store/v2/proposal/zz_verif_c15_watch.go': 'c15/zz_verif_c15_propwatch.go'}, unwind=14,
+                opts={'goroutine_park': True}))
+    cfw = {'pkg/store/v2/configuration/zz_verif_cfgstore.go': 'c03/zz_verif_cfgstore.go', 'pkg/store/v2/configuration/zz_verif_cfgclient.go': 'c03/zz_verif_cfgclient_sym.go|c03/zz_verif_cfgclient_native.go',
+           'pkg/store/v2/configuration/zz_verif_c15_watch.go': 'c15/zz_verif_c15_cfgwatch.go'}
+    for so in (0, 1):
+        for mo in (0, 1):
+            hs.append(H('VerifC15CfgWatch', 'pkg/store/v2/configuration', cfw, unwind=14, replay_attempts=4,
+                        opts={'goroutine_park': True, 'select_order': so, 'maporder': mo, 'cuts': {c03.BUILDER_GET: 'atomix-map-by-name', c03.PROTO_CODEC: 'noop'}}))
     hs.append(H('VerifC15V3Configuration', 'pkg/store/v3/configuration', c20.V3S, unwind=12, opts={'cuts': c20.STORE_CUTS}))
     if ctx.only:
         hs = [h for h in hs if h.entry in ctx.only]
